@@ -745,7 +745,10 @@ impl Server for GitSyncServer {
             self.reset_to_remote()?;
             self.read_meta()?;
             attempts += 1;
-            if self.meta.latest_version != parent_version_id {
+            // (As above, any parent is acceptable while there are no versions at all.)
+            if self.meta.latest_version != Uuid::nil()
+                && self.meta.latest_version != parent_version_id
+            {
                 return Ok((
                     AddVersionResult::ExpectedParentVersion(self.meta.latest_version),
                     SnapshotUrgency::None,
